@@ -186,7 +186,7 @@ def factory_design_legs(ctx, quick, invariants, neg_design, neg_invariants):
     """Exhaustive TLC runs of the design-level model of FactoryFunctorPool (quota, retirement, replace thread, several calls,
     exit), a negative control, and the configuration of the open known finding, which the model must exhibit too."""
     configs = [("C222", 1, 4, 1, 0, 2), ("C2", 2, 4, 2, 0, 1)] if quick else \
-              [("C222", 1, 4, 1, 0, 2), ("C21", 2, 5, 2, 0, 1), ("C23u", 2, 5, 2, 1, 2), ("C202u", 2, 5, 0, 0, 1), ("C2", 2, 4, 2, 0, 1)]
+              [("C222", 1, 4, 1, 0, 2), ("C21", 2, 6, 2, 0, 1), ("C23u", 2, 6, 2, 1, 2), ("C202u", 2, 7, 0, 0, 1), ("C2", 2, 4, 2, 0, 1)]
     for calls, nw, maxwid, wq, rq, quota in configs:
         consts = {"Calls": "<-" + calls, "NW": nw, "MaxWid": maxwid, "WorkCap": wq, "ResCap": rq, "Quota": quota, "Design": '"fixed"'}
         model.mc(FMC, consts, ctx, "FactoryPool_%s_w%d_q%d_r%d_k%d" % (calls, nw, wq, rq, quota), invariants=invariants + ["WidBound"],
